@@ -18,3 +18,4 @@ open AC.Props.C01
 #print axioms C01_src_dictsum
 #print axioms C01_src_dictsum_total
 #print axioms AC.DictSumTie.dictsumchain_tie
+#print axioms C01_src_dictsum_ends_at_sumInt
